@@ -1,44 +1,32 @@
 /-
-C09 — property theorems. Model: `HydroVerif/Model/C09.lean`; lemmas: `Lemmas/C09.lean`, `Lemmas/C09Body.lean`.
+C09 — property theorems. Model: `HydroVerif/Model/C09.lean` (header, records, whole file, file names), `Model/C09Num.lean`
+(number formatting / parsing), `Model/C09Fs.lean` (directory and archive state machines); predicates and lemmas:
+`Lemmas/C09Spec.lean` (KeyOk, ValOk, readBack, NameOk, ZipInv …), `Lemmas/C09*.lean`.
 
 Clause of the property                                   | theorems                                                   | outside the theorems
 ---------------------------------------------------------|------------------------------------------------------------|---------------------
-header comments come back unchanged in the dictionary    | writerKey_id, readerStrip_headLine, h2cElem_headLine, h2cLoop_preserves, readHeader_lookup, lookup_dictSet_self, lookup_dictSet_other | python `re` (modelled as list functions, compared on every generated header); system lines are parameters
-recorded row and column counts are returned              | readHeader_lookup at keys nrow / ncol (example: whole header evaluated) | -
-header block / column line / body are separated correctly | splitFile_written (rows starting with `#` stay rows)        | file objects, `readline`
-same column names                                        | colnames_roundtrip, writeRow_cols, quoteField_plain         | `re.sub("\\.", "_")` on names (dots are outside the name alphabet)
-same number of rows, equal non-empty text values         | parseRow_writeRow (any text: commas, quotes, colons, hashes, any number of fields), field_closed | pandas type inference and NA handling (oracle end-to-end); embedded line breaks are outside the quantifier
-numeric values equal to the float-format precision       | -                                                          | number formatting and parsing are pandas' (oracle end-to-end with the format's precision)
-plain file, any accepted name                            | plain_roundtrip                                            | the file system
-zip-compressed under any accepted file name              | compress_roundtrip, suffix_stem_zip (candidate list and KEY_LENGTH_MAX regenerated from csv.py) | zipfile
-member of a caller-supplied archive in a sub-folder      | - (the member name is the given name: oracle `e2e/archive_member`, multi-member archives) | zipfile
+header comments come back unchanged in the dictionary    | write_read_header (whole header as `_csvhead` writes it: comment-argument dispatch, key normalisation, sort, system pairs; ANY value: returned trimmed, blank dropped; no stray keys), header_roundtrip, readHeader_pairs, h2cLoop_pairs, h2cElem_headLine_any, h2cElem_headLine, h2cElem_rule, isRule_keyLine, commentsOf_dict, systemPairs_ok, readBack_lookup, writerKey_id, readerStrip_headLine; foreign headers: readHeader_lookup, h2cLoop_preserves, lookup_dictSet_self/other; needed hypotheses: reserved_key_needed, key_blank_rewritten, key_colon_removed, long_key_lost | python `re` (modelled as list functions, compared on every generated header); time stamp, login name, versions are parameters (any text)
+recorded row and column counts are returned              | write_read_header (lookup nrow/ncol = digits written, natVal (natStr n) = n) | -
+header block / column line / body are separated correctly | csv_roundtrip (header + table, end to end on the model), csvheadFull_lines, file_roundtrip, splitFile_written (rows starting with `#` stay rows) | file objects (`readline` modelled as readLines)
+same column names                                        | file_roundtrip, colnames_roundtrip (names may begin / end with blanks after fix 2 of this round), writeRow_cols, quoteField_plain | multi-index names with parentheses and names with dots are outside the name alphabet (dots: fixName modelled)
+same number of rows, equal non-empty text values         | file_roundtrip (whole text: every record of every row), parseRow_writeRow (any text, any number of fields), field_closed | pandas type inference and NA handling (oracle end-to-end); embedded line breaks are outside the quantifier
+numeric values equal to the float-format precision       | fixed_precision, parseDec_fmtFixed (`%0.Nf`: |read − written| ≤ ½·10^-N, exact rationals), exp_precision, parseSci_fmtExp, exp_zero (`%0.Ne`: relative ½·10^-N), parseInt_fmtInt (integers of any magnitude exact), fmtFixed_plain, read_back_enclosed (monotone rounding of the reader) | that `float_format % x` prints the correctly rounded decimal of the exact binary value and that pandas' reader returns a double next to the decimal value: compared cell by cell (`fmtf/fmte/fmti/pnum/pint`)
+plain file, any accepted name                            | write_read_plain (any directory contents), plain_roundtrip  | the file system (a python-dict-like association list in the model)
+zip-compressed under any accepted file name              | write_read_compress (any directory contents without a preferred older candidate), compress_roundtrip, suffix_stem_zip, writeTarget_zip, readTarget_zip; needed hypotheses: stale_plain_shadows_zip, stale_gz_shadows_zip, plain_under_zip_name_unreadable (candidate list and KEY_LENGTH_MAX regenerated from csv.py) | zipfile
+histories in one directory                               | run_inv, writeStep_inv (every zip file holds `<stem>.csv`, along any list of accepted / refused writes and reads), history_member_found, readStep_member_found (no read ever fails for a missing member) | -
+member of a caller-supplied archive in a sub-folder      | archive_history (any list of member writes - refused when present - and reads: a member reads as its first write), archive_write_read | zipfile; `PurePosixPath` normalisation of the member name (same call on both sides)
 -/
-import HydroVerif.Lemmas.C09
-import HydroVerif.Lemmas.C09Body
+import HydroVerif.Lemmas.C09Spec
 
 namespace HydroVerif.C09
-
-/-- admissible comment key: non-empty, at most 25 characters, lower-case, no colon, no white space -/
-structure KeyOk (k : Str) : Prop where
-  nonempty : k ≠ []
-  short : k.length ≤ 25
-  lowered : lower k = k
-  noColon : ∀ c ∈ k, (c != ':') = true
-  noSpace : ∀ c ∈ k, isSpace c = false
-
-/-- admissible comment value: single-line text that is non-blank and has no leading/trailing white space -/
-structure ValOk (v : Str) : Prop where
-  nonempty : v ≠ []
-  lstripped : lstrip v = v
-  rstripped : rstrip v = v
 
 /-- the writer leaves an admissible key unchanged -/
 theorem writerKey_id (k : Str) (hk : KeyOk k) : writerKey k = k := by
   unfold writerKey
   rw [List.filter_eq_self.mpr hk.noColon, hk.lowered]
 
-/-- the reader's prefix strip recovers `key : value` from the written line -/
-theorem readerStrip_headLine (k v : Str) (hk : KeyOk k) (hv : ValOk v) :
+/-- the reader's prefix strip recovers `key : value` from the written line, whatever the value -/
+theorem readerStrip_headLine (k v : Str) (hk : KeyOk k) :
     readerStrip (headLine k v ++ ['\n']) = k ++ " : ".toList ++ v := by
   obtain ⟨c, rest, rfl⟩ : ∃ c rest, k = c :: rest := by
     cases k with
@@ -63,13 +51,20 @@ theorem readerStrip_headLine (k v : Str) (hk : KeyOk k) (hv : ValOk v) :
   rw [e2]
   simp
 
-/-- **one header line round-trips**: the line written for `(key, value)` is parsed back to exactly
-`(key, value)`, for values that may contain colons, hashes, commas, quotes -/
-theorem h2cElem_headLine (i : Nat) (k v : Str) (hk : KeyOk k) (hv : ValOk v)
-    (hd : hasDashRule (k ++ " : ".toList ++ v) = false) :
-    h2cElem i (readerStrip (headLine k v ++ ['\n'])) = (some (k, v), i) := by
-  rw [readerStrip_headLine k v hk hv]
-  have helem : k ++ " : ".toList ++ v = k ++ ' ' :: (':' :: ' ' :: v) := by simp
+/-- a `key : value` line is never taken for a dashed rule (it holds a blank and a colon), whatever dashes the value holds -/
+theorem isRule_keyLine (k v : Str) : isRule (k ++ " : ".toList ++ v) = false := by
+  unfold isRule
+  have : (k ++ " : ".toList ++ v).all (· == '-') = false := by
+    rw [List.all_eq_false]
+    exact ⟨' ', by simp, by decide⟩
+  simp [this]
+
+/-- **one header line, any value**: the line written for `(key, value)` is parsed back to `(key, value.strip())` - or to
+nothing when the value is blank - for values that may contain colons, hashes, commas, quotes, runs of dashes; the
+`comment_nn` counter is left alone -/
+theorem h2cElem_headLine_any (i : Nat) (k v : Str) (hk : KeyOk k) :
+    h2cElem i (readerStrip (headLine k v ++ ['\n'])) = (readBack (k, v), i) := by
+  rw [readerStrip_headLine k v hk]
   have hsp : ((' ' : Char) != ':') = true := by decide
   have hcol : ((':' : Char) != ':') = false := by decide
   have hkey : (k ++ " : ".toList ++ v).takeWhile (· != ':') = k ++ [' '] := by
@@ -91,14 +86,14 @@ theorem h2cElem_headLine (i : Nat) (k v : Str) (hk : KeyOk k) (hv : ValOk v)
       rw [hcr, List.cons_append]
       exact lstrip_of_head _ _ (by rw [hcr] at hk; exact hk.noSpace c (by simp))
     rw [this, rstrip_append_space k hk.nonempty hlast]
-  have hval : strip ((k ++ " : ".toList ++ v).drop ((k ++ [' ']).length + 1)) = v := by
+  have hval : strip ((k ++ " : ".toList ++ v).drop ((k ++ [' ']).length + 1)) = strip v := by
     have : (k ++ " : ".toList ++ v).drop ((k ++ [' ']).length + 1) = ' ' :: v := by
       have e : k ++ " : ".toList ++ v = (k ++ [' ', ':']) ++ (' ' :: v) := by simp
       rw [e, List.drop_append]
       simp
     rw [this]
     unfold strip
-    rw [lstrip_space_cons, hv.lstripped, hv.rstripped]
+    rw [lstrip_space_cons]
   have hnosp : ∀ c ∈ k, c ≠ ' ' := by
     intro c hc heq
     have := hk.noSpace c hc
@@ -110,9 +105,17 @@ theorem h2cElem_headLine (i : Nat) (k v : Str) (hk : KeyOk k) (hv : ValOk v)
     apply mem_take_of_index
     have := hk.short
     simp [KEY_LENGTH_MAX, Gen.keyLengthMax]; omega
-  unfold h2cElem
-  simp only [hd, Bool.false_eq_true, if_false, hkey, hval, hstripkey, hk.lowered, subSpaces,
-    subSpacesAux_id false k hnosp, hcontains, if_true, hv.nonempty]
+  unfold h2cElem readBack
+  simp only [isRule_keyLine, Bool.false_eq_true, if_false, hkey, hval, hstripkey, hk.lowered, subSpaces,
+    subSpacesAux_id false k hnosp, hcontains, if_true]
+
+/-- **one header line round-trips**: the line written for an admissible `(key, value)` is parsed back to exactly
+`(key, value)` - no condition on dashes in the value any more -/
+theorem h2cElem_headLine (i : Nat) (k v : Str) (hk : KeyOk k) (hv : ValOk v) :
+    h2cElem i (readerStrip (headLine k v ++ ['\n'])) = (some (k, v), i) := by
+  rw [h2cElem_headLine_any i k v hk]
+  unfold readBack
+  simp [strip_of_valOk v hv, hv.nonempty]
 
 /-! ### the whole header: later lines never disturb an earlier key they do not mention -/
 
@@ -148,11 +151,9 @@ theorem h2cLoop_preserves (k : Str) (es : List Str) :
         have := he (k1, v1) (by rw [hr])
         exact fun hh => this hh.symm
 
-/-- **header round trip**: if the line written for `(k, v)` occurs in the header and no other line of the
-header defines key `k` (system keys and the other comment keys are different), then the comment
-dictionary returned by the reader holds `v` under `k` -/
+/-- **header round trip, any surrounding lines**: if the line written for `(k, v)` occurs in a header (of this or any other
+writer) and no later line defines key `k`, then the comment dictionary returned by the reader holds `v` under `k` -/
 theorem readHeader_lookup (before after : List Str) (k v : Str) (hk : KeyOk k) (hv : ValOk v)
-    (hd : hasDashRule (k ++ " : ".toList ++ v) = false)
     (hafter : ∀ j, ∀ l ∈ after, notKey k j (readerStrip l)) :
     (readHeader (before ++ [headLine k v ++ ['\n']] ++ after)).lookup k = some v := by
   unfold readHeader header2comment
@@ -171,7 +172,7 @@ theorem readHeader_lookup (before after : List Str) (k v : Str) (hk : KeyOk k) (
         | some kv => obtain ⟨a, b⟩ := kv; simp only; exact ih i' _ ys
   rw [List.append_assoc, split, List.singleton_append]
   unfold h2cLoop
-  rw [h2cElem_headLine _ k v hk hv hd]
+  rw [h2cElem_headLine _ k v hk hv]
   simp only
   rw [h2cLoop_preserves k _ _ _ (by
     intro j e he
@@ -180,6 +181,309 @@ theorem readHeader_lookup (before after : List Str) (k v : Str) (hk : KeyOk k) (
     exact hafter j l hl)]
   exact lookup_dictSet_self _ _ _
 
+/-! ### the whole header as `_csvhead` writes it: the dictionary returned is determined entirely -/
+
+/-- the dashed rule that opens and closes the header defines nothing -/
+theorem h2cElem_rule (i : Nat) : h2cElem i (readerStrip (rule ++ ['\n'])) = (none, i) := by
+  have : readerStrip (rule ++ ['\n']) = List.replicate 50 '-' := by decide
+  rw [this]
+  unfold h2cElem
+  have : isRule (List.replicate 50 '-') = true := by decide
+  rw [if_pos this]
+
+/-- the reader's loop over the lines written for pairs with admissible, pairwise different keys that are not yet in the
+dictionary: each pair is appended as `readBack` gives it, in the order written -/
+theorem h2cLoop_pairs (kvs : List (Str × Str)) :
+    ∀ (i : Nat) (d : List (Str × Str)), (∀ kv ∈ kvs, KeyOk kv.1) → (d.map (·.1) ++ kvs.map (·.1)).Nodup →
+      h2cLoop i d (kvs.map fun kv => readerStrip (headLine kv.1 kv.2 ++ ['\n'])) = d ++ kvs.filterMap readBack := by
+  induction kvs with
+  | nil => intro i d _ _; simp [h2cLoop]
+  | cons kv kvs ih =>
+    intro i d hk hn
+    obtain ⟨k, v⟩ := kv
+    have hk1 : KeyOk k := hk (k, v) (by simp)
+    have hrest : ∀ kv ∈ kvs, KeyOk kv.1 := fun kv h => hk kv (by simp [h])
+    simp only [List.map_cons]
+    unfold h2cLoop
+    rw [h2cElem_headLine_any i k v hk1]
+    have hfresh : k ∉ d.map (·.1) := by
+      intro hmem
+      exact (List.disjoint_of_nodup_append hn) hmem (by simp)
+    by_cases hb : strip v = []
+    · have e : readBack (k, v) = none := by simp [readBack, hb]
+      simp only [e, List.filterMap_cons]
+      apply ih i d hrest
+      have : (d.map (·.1) ++ kvs.map (·.1)).Sublist (d.map (·.1) ++ (k :: kvs.map (·.1))) :=
+        List.Sublist.append_left (List.sublist_cons_self _ _) _
+      exact List.Nodup.sublist this (by simpa using hn)
+    · have e : readBack (k, v) = some (k, strip v) := by simp [readBack, hb]
+      simp only [e, List.filterMap_cons]
+      rw [dictSet_fresh d k (strip v) hfresh, ih i _ hrest]
+      · simp
+      · simpa [List.append_assoc] using hn
+
+/-- the lines of a header made of a rule, one line per pair, and a rule: the dictionary is exactly the pairs as `readBack`
+gives them -/
+theorem readHeader_pairs (kvs : List (Str × Str)) (hk : ∀ kv ∈ kvs, KeyOk kv.1) (hn : (kvs.map (·.1)).Nodup) :
+    readHeader ((rule :: kvs.map (fun kv => headLine kv.1 kv.2) ++ [rule]).map (· ++ ['\n'])) = kvs.filterMap readBack := by
+  unfold readHeader header2comment
+  simp only [List.map_cons, List.map_append, List.map_map, List.map_nil, List.cons_append]
+  have split : ∀ (xs ys : List Str) (i : Nat) (d : List (Str × Str)),
+      h2cLoop i d (xs ++ ys) = h2cLoop (h2cLoopIdx i xs) (h2cLoop i d xs) ys := by
+    intro xs
+    induction xs with
+    | nil => intro ys i d; rfl
+    | cons x xs ih =>
+      intro ys i d
+      simp only [List.cons_append, h2cLoop, h2cLoopIdx]
+      cases hr : h2cElem i x with
+      | mk o i' => cases o with
+        | none => simp only; exact ih ys i' d
+        | some kv => obtain ⟨a, b⟩ := kv; simp only; exact ih ys i' _
+  unfold h2cLoop
+  rw [h2cElem_rule]
+  simp only
+  rw [split]
+  have hmap : (kvs.map ((fun x => readerStrip x) ∘ (fun x => x ++ ['\n']) ∘ fun kv => headLine kv.1 kv.2))
+      = kvs.map fun kv => readerStrip (headLine kv.1 kv.2 ++ ['\n']) := by
+    apply List.map_congr_left; intro a _; rfl
+  rw [hmap, h2cLoop_pairs kvs 1 [] hk (by simpa using hn)]
+  simp only [List.nil_append]
+  unfold h2cLoop
+  rw [h2cElem_rule]
+  simp [h2cLoop]
+
+/-- a dictionary with admissible, pairwise different keys is written as it is (no key collapses onto another) -/
+theorem commentsOf_dict (comments : List (Str × Str)) (hk : ∀ kv ∈ comments, KeyOk kv.1)
+    (hn : (comments.map (·.1)).Nodup) : commentsOf (.dict comments) = comments := by
+  have gen : ∀ (l acc : List (Str × Str)), (∀ kv ∈ l, KeyOk kv.1) → (acc.map (·.1) ++ l.map (·.1)).Nodup →
+      l.foldl (fun acc kv => dictSet acc (writerKey kv.1) kv.2) acc = acc ++ l := by
+    intro l
+    induction l with
+    | nil => intro acc _ _; simp
+    | cons kv l ih =>
+      intro acc hk hn
+      obtain ⟨k, v⟩ := kv
+      simp only [List.foldl_cons]
+      rw [writerKey_id k (hk (k, v) (by simp))]
+      have hfresh : k ∉ acc.map (·.1) := fun hmem => (List.disjoint_of_nodup_append hn) hmem (by simp)
+      rw [dictSet_fresh acc k v hfresh, ih _ (fun kv h => hk kv (by simp [h]))]
+      · simp
+      · simpa [List.append_assoc] using hn
+  have := gen comments [] hk (by simpa using hn)
+  simpa [commentsOf] using this
+
+/-- **the whole header**: for a comment dictionary with admissible keys (pairwise different, as dictionary keys are, and
+different from the count keys and the system keys) and ANY values, and system pairs with admissible pairwise different
+keys, the dictionary the reader returns for the header `_csvhead` wrote is exactly: nrow, ncol, the caller's comments
+in key order, the system pairs - every value trimmed, blank values left out. No hypothesis on other lines is left:
+all lines of the header are accounted for -/
+theorem header_roundtrip (nrow ncol : Nat) (comments system : List (Str × Str))
+    (hk : ∀ kv ∈ comments, KeyOk kv.1) (hn : (comments.map (·.1)).Nodup)
+    (hsk : ∀ kv ∈ system, KeyOk kv.1) (hsn : (system.map (·.1)).Nodup)
+    (hres : ∀ kv ∈ comments, kv.1 ∉ countKeys ++ system.map (·.1))
+    (hsres : ∀ kv ∈ system, kv.1 ∉ countKeys) :
+    readHeader ((csvheadFull nrow ncol (.dict comments) system).map (· ++ ['\n']))
+      = (headPairs nrow ncol comments system).filterMap readBack := by
+  unfold csvheadFull
+  rw [commentsOf_dict comments hk hn]
+  have hperm := sortKeys_perm comments
+  apply readHeader_pairs
+  · intro kv hkv
+    unfold headPairs at hkv
+    simp only [List.mem_append, List.mem_cons, List.not_mem_nil, or_false] at hkv
+    rcases hkv with (h | h) | h
+    · rcases h with h | h
+      · rw [h]; exact keyOk_nrow
+      · rw [h]; exact keyOk_ncol
+    · exact hk kv (hperm.mem_iff.mp h)
+    · exact hsk kv h
+  · unfold headPairs
+    have hpk : ((sortKeys comments).map (·.1)).Perm (comments.map (·.1)) := hperm.map _
+    simp only [List.map_append, List.map_cons, List.map_nil]
+    rw [List.append_assoc]
+    refine List.Nodup.append (by decide) (List.Nodup.append (hpk.nodup_iff.mpr hn) hsn ?_) ?_
+    · intro a ha hb
+      obtain ⟨kv, hkv, rfl⟩ := List.mem_map.mp (hpk.mem_iff.mp ha)
+      exact hres kv hkv (List.mem_append_right _ hb)
+    · intro a ha hb
+      rcases List.mem_append.mp hb with hb | hb
+      · obtain ⟨kv, hkv, rfl⟩ := List.mem_map.mp (hpk.mem_iff.mp hb)
+        exact hres kv hkv (List.mem_append_left _ ha)
+      · obtain ⟨kv, hkv, rfl⟩ := List.mem_map.mp hb
+        exact hsres kv hkv ha
+
+/-- lookup in the dictionary the reader returns, for the header of `header_roundtrip`: a pair that was written comes back
+under its key with the trimmed value; nothing comes back for a blank value -/
+theorem readBack_lookup (l : List (Str × Str)) (hn : (l.map (·.1)).Nodup) (k v : Str) (hm : (k, v) ∈ l) :
+    (l.filterMap readBack).lookup k = if strip v = [] then none else some (strip v) := by
+  have hsub := filterMap_readBack_keys l
+  have hn' : ((l.filterMap readBack).map (·.1)).Nodup := List.Nodup.sublist hsub hn
+  by_cases hb : strip v = []
+  · rw [if_pos hb]
+    apply lookup_none_of_not_mem
+    intro hmem
+    obtain ⟨kv', hkv', hk'⟩ := List.mem_map.mp hmem
+    obtain ⟨kv0, hkv0, hrb⟩ := List.mem_filterMap.mp hkv'
+    obtain ⟨k0, v0⟩ := kv0
+    unfold readBack at hrb
+    split at hrb
+    · cases hrb
+    · injection hrb with hrb
+      rw [← hrb] at hk'
+      simp only at hk'
+      -- (k, v0) and (k, v) both in l with pairwise different keys: v0 = v
+      subst hk'
+      have h1 := lookup_of_mem_nodup l k0 v0 hkv0 hn
+      have h2 := lookup_of_mem_nodup l k0 v hm hn
+      rw [h1] at h2
+      injection h2 with h2
+      subst h2
+      contradiction
+  · rw [if_neg hb]
+    apply lookup_of_mem_nodup _ _ _ _ hn'
+    exact List.mem_filterMap.mpr ⟨(k, v), hm, by simp [readBack, hb]⟩
+
+/-- the system pairs `_csvhead` appends - whatever the time stamp, author, paths and version texts are - have admissible,
+pairwise different keys, all among `systemKeys` and none a count key: the hypotheses of `header_roundtrip` on the
+system lines follow from the code -/
+theorem systemPairs_ok (time author sourcePath sourceName : Str) (sys : Option SysInfo) :
+    (∀ kv ∈ systemPairs time author sourcePath sourceName sys, KeyOk kv.1 ∧ kv.1 ∈ systemKeys ∧ kv.1 ∉ countKeys)
+    ∧ ((systemPairs time author sourcePath sourceName sys).map (·.1)).Nodup := by
+  have hall : ∀ k ∈ systemKeys, KeyOk k ∧ k ∈ systemKeys ∧ k ∉ countKeys := by
+    intro k hk
+    simp only [systemKeys, List.mem_cons, List.not_mem_nil, or_false] at hk
+    rcases hk with h | h | h | h | h | h | h | h | h | h <;> subst h <;>
+      exact ⟨⟨by decide, by decide, by decide, by decide, by decide⟩, by decide, by decide⟩
+  -- the keys written, by case of the optional parts
+  let keysOf : Option (Option Unit) → List Str := fun
+    | none => ["time_generated".toList, "author".toList, "source_file".toList]
+    | some none => ["time_generated".toList, "author".toList, "source_file".toList, "work_dir".toList,
+        "python_environment".toList, "python_version".toList, "pandas_version".toList, "numpy_version".toList]
+    | some (some ()) => ["time_generated".toList, "author".toList, "source_file".toList, "work_dir".toList,
+        "python_environment".toList, "python_version".toList, "pandas_version".toList, "numpy_version".toList,
+        "python_inc".toList, "python_lib".toList]
+  have hkeys : ∃ c, (systemPairs time author sourcePath sourceName sys).map (·.1) = keysOf c := by
+    cases sys with
+    | none => exact ⟨none, rfl⟩
+    | some si =>
+      obtain ⟨w, o, pv, pdv, nv, du⟩ := si
+      cases du with
+      | none => exact ⟨some none, rfl⟩
+      | some p => obtain ⟨a, b⟩ := p; exact ⟨some (some ()), rfl⟩
+  obtain ⟨c, hc⟩ := hkeys
+  have hsub : ∀ k ∈ keysOf c, k ∈ systemKeys := by
+    rcases c with _ | _ | ⟨⟨⟩⟩ <;> decide
+  have hnod : (keysOf c).Nodup := by
+    rcases c with _ | _ | ⟨⟨⟩⟩ <;> decide
+  constructor
+  · intro kv hkv
+    apply hall
+    apply hsub
+    rw [← hc]
+    exact List.mem_map_of_mem hkv
+  · rw [hc]; exact hnod
+
+/-- **header comments and counts, as `write_csv` writes them**: for every comment dictionary with admissible keys that are
+not reserved and ANY single-line values, every time stamp, author, source file and system information:
+each supplied comment comes back under its key with its value (trimmed; unchanged when it has no outer blanks), the
+recorded counts come back and read as the numbers written, and every key of the returned dictionary is a supplied key,
+a count key or a system key -/
+theorem write_read_header (nrow ncol : Nat) (comments : List (Str × Str)) (time author sourcePath sourceName : Str)
+    (sys : Option SysInfo)
+    (hk : ∀ kv ∈ comments, KeyOk kv.1) (hn : (comments.map (·.1)).Nodup)
+    (hres : ∀ kv ∈ comments, kv.1 ∉ reservedKeys) :
+    let d := readHeader ((csvheadFull nrow ncol (.dict comments) (systemPairs time author sourcePath sourceName sys)).map (· ++ ['\n']))
+    (∀ kv ∈ comments, d.lookup kv.1 = if strip kv.2 = [] then none else some (strip kv.2))
+    ∧ (∀ kv ∈ comments, ValOk kv.2 → d.lookup kv.1 = some kv.2)
+    ∧ d.lookup "nrow".toList = some (natStr nrow) ∧ natVal (natStr nrow) = nrow
+    ∧ d.lookup "ncol".toList = some (natStr ncol) ∧ natVal (natStr ncol) = ncol
+    ∧ (∀ k ∈ d.map (·.1), k ∈ comments.map (·.1) ∨ k ∈ reservedKeys) := by
+  intro d
+  obtain ⟨hsys, hsysn⟩ := systemPairs_ok time author sourcePath sourceName sys
+  set system := systemPairs time author sourcePath sourceName sys with hsysdef
+  have hd : d = (headPairs nrow ncol comments system).filterMap readBack := by
+    apply header_roundtrip nrow ncol comments system hk hn (fun kv h => (hsys kv h).1) hsysn
+    · intro kv hkv hmem
+      apply hres kv hkv
+      unfold reservedKeys
+      rcases List.mem_append.mp hmem with h | h
+      · exact List.mem_append_left _ h
+      · obtain ⟨kv', hkv', he⟩ := List.mem_map.mp h
+        rw [← he]
+        exact List.mem_append_right _ (hsys kv' hkv').2.1
+    · exact fun kv h => (hsys kv h).2.2
+  -- pairwise different keys over the whole header
+  have hperm := sortKeys_perm comments
+  have hpk : ((sortKeys comments).map (·.1)).Perm (comments.map (·.1)) := hperm.map _
+  have hnod : ((headPairs nrow ncol comments system).map (·.1)).Nodup := by
+    unfold headPairs
+    simp only [List.map_append, List.map_cons, List.map_nil]
+    rw [List.append_assoc]
+    refine List.Nodup.append (by decide) (List.Nodup.append (hpk.nodup_iff.mpr hn) hsysn ?_) ?_
+    · intro a ha hb
+      obtain ⟨kv, hkv, rfl⟩ := List.mem_map.mp (hpk.mem_iff.mp ha)
+      obtain ⟨kv', hkv', he⟩ := List.mem_map.mp hb
+      apply hres kv hkv
+      rw [← he]
+      exact List.mem_append_right _ (hsys kv' hkv').2.1
+    · intro a ha hb
+      rcases List.mem_append.mp hb with hb | hb
+      · obtain ⟨kv, hkv, rfl⟩ := List.mem_map.mp (hpk.mem_iff.mp hb)
+        exact hres kv hkv (List.mem_append_left _ ha)
+      · obtain ⟨kv, hkv, rfl⟩ := List.mem_map.mp hb
+        exact (hsys kv hkv).2.2 ha
+  have hmemc : ∀ kv ∈ comments, (kv.1, kv.2) ∈ headPairs nrow ncol comments system := by
+    intro kv hkv
+    unfold headPairs
+    exact List.mem_append_left _ (List.mem_append_right _ (hperm.mem_iff.mpr hkv))
+  have hcount : ∀ n : Nat, strip (natStr n) = natStr n ∧ natStr n ≠ [] := by
+    intro n
+    have hne := natStr_ne_nil n
+    have hd := natStr_digits n
+    refine ⟨?_, hne⟩
+    obtain ⟨c, rest, hcr⟩ : ∃ c rest, natStr n = c :: rest := by
+      cases h : natStr n with
+      | nil => exact absurd h hne
+      | cons c rest => exact ⟨c, rest, rfl⟩
+    have hl : lstrip (natStr n) = natStr n := by
+      rw [hcr]; exact lstrip_of_head c rest (isDigit_not_space c (hd c (by rw [hcr]; simp)))
+    have hr : rstrip (natStr n) = natStr n := by
+      unfold rstrip
+      obtain ⟨c', rest', hcr'⟩ : ∃ c rest, (natStr n).reverse = c :: rest := by
+        cases h : (natStr n).reverse with
+        | nil => simp at h; exact absurd h hne
+        | cons c rest => exact ⟨c, rest, rfl⟩
+      have hc' : c' ∈ natStr n := by
+        have : c' ∈ (natStr n).reverse := by rw [hcr']; simp
+        exact List.mem_reverse.mp this
+      rw [hcr', dropWhile_of_head_false _ _ _ (isDigit_not_space c' (hd c' hc')), ← hcr', List.reverse_reverse]
+    unfold strip; rw [hl, hr]
+  refine ⟨?_, ?_, ?_, natVal_natStr nrow, ?_, natVal_natStr ncol, ?_⟩
+  · intro kv hkv
+    rw [hd]
+    exact readBack_lookup _ hnod kv.1 kv.2 (hmemc kv hkv)
+  · intro kv hkv hv
+    rw [hd, readBack_lookup _ hnod kv.1 kv.2 (hmemc kv hkv), strip_of_valOk kv.2 hv, if_neg hv.nonempty]
+  · rw [hd, readBack_lookup _ hnod "nrow".toList (natStr nrow) (by unfold headPairs; simp), (hcount nrow).1,
+      if_neg (hcount nrow).2]
+  · rw [hd, readBack_lookup _ hnod "ncol".toList (natStr ncol) (by unfold headPairs; simp), (hcount ncol).1,
+      if_neg (hcount ncol).2]
+  · intro k hkmem
+    rw [hd] at hkmem
+    have := (filterMap_readBack_keys _).subset hkmem
+    unfold headPairs at this
+    simp only [List.map_append, List.map_cons, List.map_nil, List.mem_append, List.mem_cons, List.not_mem_nil,
+      or_false] at this
+    rcases this with (h | h) | h
+    · right; unfold reservedKeys countKeys
+      apply List.mem_append_left
+      rcases h with h | h <;> simp [h]
+    · left; exact hpk.mem_iff.mp h
+    · right
+      obtain ⟨kv', hkv', he⟩ := List.mem_map.mp h
+      rw [← he]
+      exact List.mem_append_right _ (hsys kv' hkv').2.1
 
 /-- the reader takes exactly the written header block as header, the next line as column names and
 all remaining lines as table rows - also rows whose first character is `#` -/
@@ -219,9 +523,6 @@ theorem field_closed (f : Str) (done : List Str) :
   obtain ⟨st, h, h1, _⟩ := field_read f done
   rw [h]; exact h1
 
-/-- admissible column name: no comma, quote or line break (the property: letters, digits, space, dash, underscore) -/
-def ColOk (n : Str) : Prop := ∀ c ∈ n, c ≠ ',' ∧ c ≠ '"' ∧ c ≠ '\n' ∧ c ≠ '\r'
-
 theorem writeRow_cols (names : List Str) (h : ∀ n ∈ names, ColOk n) (hne : names ≠ []) :
     splitOnComma (writeRow names) = names := by
   induction names with
@@ -236,37 +537,340 @@ theorem writeRow_cols (names : List Str) (h : ∀ n ∈ names, ColOk n) (hne : n
       simp only [writeRow, quoteField_plain n (h n (by simp))]
       rw [splitOnComma_append n hn, ih (fun k hk => h k (by simp [hk])) (by simp)]
 
-/-- **column names**: the line `to_csv` writes for admissible column names is split back into exactly those names by
-the reader's `line.strip().split(",")`, provided the line as a whole does not begin or end with white space
-(first name not starting, last name not ending with a blank) -/
-theorem colnames_roundtrip (names : List Str) (h : ∀ n ∈ names, ColOk n) (hne : names ≠ [])
-    (hl : lstrip (writeRow names) = writeRow names) (hr : rstrip (writeRow names) = writeRow names)
-    (hline : writeRow names ≠ []) :
+/-- **column names**: the line `to_csv` writes for admissible column names is split back into exactly those names by the
+reader's `line.rstrip("\r\n").split(",")` - names may begin or end with blanks -/
+theorem colnames_roundtrip (names : List Str) (h : ∀ n ∈ names, ColOk n) (hne : names ≠ []) :
     splitCols (writeRow names ++ ['\n']) = names := by
-  have hstrip : strip (writeRow names ++ ['\n']) = writeRow names := by
-    unfold strip
-    have h1 : lstrip (writeRow names ++ ['\n']) = writeRow names ++ ['\n'] := by
-      cases hw : writeRow names with
-      | nil => exact absurd hw hline
-      | cons c rest =>
-        have hc : isSpace c = false := by
-          by_contra hcon
-          have hcon' : isSpace c = true := by simpa using hcon
-          have : lstrip (c :: rest) = lstrip rest := by simp [lstrip, List.dropWhile, hcon']
-          rw [hw] at hl
-          rw [this] at hl
-          have hlen := congrArg List.length hl
-          have : (lstrip rest).length ≤ rest.length := by
-            unfold lstrip; exact (List.dropWhile_sublist _).length_le
-          simp at hlen; omega
-        exact lstrip_of_head c (rest ++ ['\n']) hc
-    rw [h1]
-    have h2 : rstrip (writeRow names ++ ['\n']) = rstrip (writeRow names) := by
-      simp [rstrip, List.dropWhile, isSpace]
-    rw [h2, hr]
+  have hstrip : rstripNL (writeRow names ++ ['\n']) = writeRow names := by
+    unfold rstripNL
+    rw [List.reverse_append]
+    simp only [List.reverse_cons, List.reverse_nil, List.nil_append, List.singleton_append]
+    rw [List.dropWhile_cons_of_pos (by decide)]
+    -- the record itself does not end with a line terminator: its last character belongs to a name or is a comma
+    cases hrev : (writeRow names).reverse with
+    | nil => simp [List.reverse_eq_nil_iff.mp hrev]
+    | cons c rest =>
+      have hc : c ∈ writeRow names := by
+        have : c ∈ (writeRow names).reverse := by rw [hrev]; simp
+        exact List.mem_reverse.mp this
+      have hcn : (c == '\n' || c == '\r') = false := by
+        rcases writeRow_mem names c hc with ⟨f, hf, hcf⟩ | hq | hq
+        · obtain ⟨_, _, h3, h4⟩ := h f hf c hcf
+          simp [h3, h4]
+        · subst hq; decide
+        · subst hq; decide
+      have hdw := dropWhile_of_head_false (fun c => c == '\n' || c == '\r') c rest hcn
+      rw [hdw, ← hrev, List.reverse_reverse]
   unfold splitCols
   rw [hstrip]
   exact writeRow_cols names h hne
+
+/-! ### the file as a whole -/
+
+/-- **the whole file**: the text `write_csv` produces from header lines (each starting with `#`), admissible column names
+and records of single-line fields (any text: commas, quotes, colons, hashes; numbers as formatted) is read back by
+`read_csv` - `readline` loop, header / column line / body split, name split, tokeniser - as exactly the same names,
+the same number of records and the same fields, with the comment dictionary of the header lines -/
+theorem file_roundtrip (head : List Str) (t : Table)
+    (hh : ∀ l ∈ head, startsWith l ['#'] = true ∧ ∀ c ∈ l, c ≠ '\n')
+    (hnames : ∀ n ∈ t.names, NameOk n) (hne : t.names ≠ [])
+    (hrows : ∀ r ∈ t.rows, r ≠ [] ∧ ∀ f ∈ r, ∀ c ∈ f, c ≠ '\n') :
+    readFile (writeFile head t) = some { comment := readHeader (head.map (· ++ ['\n'])), table := t } := by
+  obtain ⟨names, rows⟩ := t
+  simp only at hnames hne hrows
+  obtain ⟨n, ns, rfl⟩ : ∃ n ns, names = n :: ns := by
+    cases names with
+    | nil => exact absurd rfl hne
+    | cons n ns => exact ⟨n, ns, rfl⟩
+  have hn := hnames n (by simp)
+  -- the column-name record: one line that begins with the first name
+  obtain ⟨rest, hrest⟩ := writeRow_plain_head n ns hn.noQuote
+  obtain ⟨c, n', hcn⟩ : ∃ c n', n = c :: n' := by
+    cases hnn : n with
+    | nil => exact absurd hnn hn.nonempty
+    | cons c n' => exact ⟨c, n', rfl⟩
+  have hchash : c ≠ '#' := (hn.plain c (by rw [hcn]; simp)).2.2.2.2.1
+  have hcolline : writeRow (n :: ns) = c :: (n' ++ rest) := by rw [hrest, hcn]; simp
+  have hcols : splitCols (writeRow (n :: ns) ++ ['\n']) = n :: ns :=
+    colnames_roundtrip (n :: ns) (fun m hm => (hnames m hm).colOk) hne
+  have hnonl : ∀ d ∈ writeRow (n :: ns), d ≠ '\n' :=
+    writeRow_no_newline _ (fun f hf d hd => (hnames f hf |>.plain d hd).2.2.1)
+  -- all lines of the text
+  have hlines : ∀ l ∈ head ++ writeRow (n :: ns) :: rows.map writeRow, ∀ d ∈ l, d ≠ '\n' := by
+    intro l hl
+    rcases List.mem_append.mp hl with h | h
+    · exact (hh l h).2
+    · rcases List.mem_cons.mp h with h | h
+      · rw [h]; exact hnonl
+      · obtain ⟨r, hr', rfl⟩ := List.mem_map.mp h
+        exact writeRow_no_newline r (hrows r hr').2
+  unfold readFile writeFile
+  simp only
+  rw [readLines_joinLines _ hlines]
+  have hsplit : splitFile ((head ++ writeRow (n :: ns) :: rows.map writeRow).map (· ++ ['\n']))
+      = (head.map (· ++ ['\n']), some (writeRow (n :: ns) ++ ['\n']), (rows.map writeRow).map (· ++ ['\n'])) := by
+    rw [List.map_append, List.map_cons]
+    apply splitFile_written
+    · intro l hl
+      obtain ⟨l0, hl0, rfl⟩ := List.mem_map.mp hl
+      have := (hh l0 hl0).1
+      cases l0 with
+      | nil => simp [startsWith] at this
+      | cons a l0 => simpa [startsWith] using this
+    · rw [hcolline]
+      have : (c == '#') = false := beq_eq_false_iff_ne.mpr hchash
+      simp [startsWith, this]
+  rw [hsplit]
+  simp only [hcols, Option.some.injEq]
+  congr 1
+  congr 1
+  · rw [List.map_congr_left (fun m hm => fixName_id m (hnames m hm)), List.map_id']
+  · rw [List.map_map, List.map_map]
+    conv_rhs => rw [← List.map_id rows]
+    apply List.map_congr_left
+    intro r hr'
+    simp only [Function.comp, chomp_line, id]
+    exact parseRow_writeRow r (hrows r hr').1
+
+/-- every line of the header `_csvhead` produces starts with `#`; it is a single line when keys, values and the system texts are -/
+theorem csvheadFull_lines (nrow ncol : Nat) (comments system : List (Str × Str))
+    (hc : ∀ kv ∈ comments, KeyOk kv.1) (hn : (comments.map (·.1)).Nodup)
+    (hcl : ∀ kv ∈ comments, (∀ c ∈ kv.1, c ≠ '\n') ∧ ∀ c ∈ kv.2, c ≠ '\n')
+    (hsl : ∀ kv ∈ system, (∀ c ∈ kv.1, c ≠ '\n') ∧ ∀ c ∈ kv.2, c ≠ '\n') :
+    ∀ l ∈ csvheadFull nrow ncol (.dict comments) system, startsWith l ['#'] = true ∧ ∀ c ∈ l, c ≠ '\n' := by
+  have hrule : startsWith rule ['#'] = true ∧ ∀ c ∈ rule, c ≠ '\n' := by decide
+  have hline : ∀ k v : Str, (∀ c ∈ k, c ≠ '\n') → (∀ c ∈ v, c ≠ '\n') →
+      startsWith (headLine k v) ['#'] = true ∧ ∀ c ∈ headLine k v, c ≠ '\n' := by
+    intro k v hk hv
+    refine ⟨by simp [headLine, startsWith], ?_⟩
+    intro c hc
+    simp only [headLine, List.mem_append] at hc
+    rcases hc with ((hc | hc) | hc) | hc
+    · intro e; subst e; revert hc; decide
+    · exact hk c hc
+    · intro e; subst e; revert hc; decide
+    · exact hv c hc
+  have hdig : ∀ n : Nat, ∀ c ∈ natStr n, c ≠ '\n' := by
+    intro n c hc e
+    have := isDigit_not_space c (natStr_digits n c hc)
+    subst e
+    revert this; decide
+  intro l hl
+  unfold csvheadFull at hl
+  rw [commentsOf_dict comments hc hn] at hl
+  simp only [List.mem_cons, List.mem_append, List.mem_map, List.not_mem_nil, or_false] at hl
+  rcases hl with (hl | ⟨kv, hkv, rfl⟩) | hl
+  · rw [hl]; exact hrule
+  · unfold headPairs at hkv
+    simp only [List.mem_append, List.mem_cons, List.not_mem_nil, or_false] at hkv
+    rcases hkv with (h | h) | h
+    · rcases h with h | h <;> rw [h]
+      · exact hline "nrow".toList _ (by decide) (hdig _)
+      · exact hline "ncol".toList _ (by decide) (hdig _)
+    · have := hcl kv ((sortKeys_perm comments).mem_iff.mp h)
+      exact hline _ _ this.1 this.2
+    · have := hsl kv h
+      exact hline _ _ this.1 this.2
+  · rw [hl]; exact hrule
+
+/-- **the property on the model, end to end**: for every comment dictionary with admissible, non-reserved keys and single-line
+values, every table with admissible column names and at least one field per record (single-line fields of any text; numbers
+as formatted), every time stamp / author / source file / system information (single-line): the text `write_csv` produces is
+read back by `read_csv` as the same column names, the same records, a dictionary that holds every supplied comment (trimmed;
+unchanged for trimmed non-blank values), the counts written, and nothing that is not a supplied, count or system key -/
+theorem csv_roundtrip (nrow ncol : Nat) (comments : List (Str × Str)) (time author sourcePath sourceName : Str)
+    (sys : Option SysInfo) (t : Table)
+    (hk : ∀ kv ∈ comments, KeyOk kv.1) (hn : (comments.map (·.1)).Nodup) (hres : ∀ kv ∈ comments, kv.1 ∉ reservedKeys)
+    (hcl : ∀ kv ∈ comments, ∀ c ∈ kv.2, c ≠ '\n')
+    (hsl : ∀ kv ∈ systemPairs time author sourcePath sourceName sys, ∀ c ∈ kv.2, c ≠ '\n')
+    (hnames : ∀ n ∈ t.names, NameOk n) (hne : t.names ≠ [])
+    (hrows : ∀ r ∈ t.rows, r ≠ [] ∧ ∀ f ∈ r, ∀ c ∈ f, c ≠ '\n') :
+    ∃ d, readFile (writeFile (csvheadFull nrow ncol (.dict comments) (systemPairs time author sourcePath sourceName sys)) t)
+        = some { comment := d, table := t }
+      ∧ (∀ kv ∈ comments, d.lookup kv.1 = if strip kv.2 = [] then none else some (strip kv.2))
+      ∧ (∀ kv ∈ comments, ValOk kv.2 → d.lookup kv.1 = some kv.2)
+      ∧ d.lookup "nrow".toList = some (natStr nrow) ∧ d.lookup "ncol".toList = some (natStr ncol)
+      ∧ (∀ k ∈ d.map (·.1), k ∈ comments.map (·.1) ∨ k ∈ reservedKeys) := by
+  have hkeyline : ∀ k : Str, KeyOk k → ∀ c ∈ k, c ≠ '\n' := by
+    intro k hk' c hc e
+    have := hk'.noSpace c hc
+    subst e
+    revert this; decide
+  obtain ⟨hsys, _⟩ := systemPairs_ok time author sourcePath sourceName sys
+  have hlines := csvheadFull_lines nrow ncol comments (systemPairs time author sourcePath sourceName sys) hk hn
+    (fun kv h => ⟨hkeyline kv.1 (hk kv h), hcl kv h⟩) (fun kv h => ⟨hkeyline kv.1 (hsys kv h).1, hsl kv h⟩)
+  obtain ⟨h1, h2, h3, _, h5, _, h7⟩ := write_read_header nrow ncol comments time author sourcePath sourceName sys hk hn hres
+  exact ⟨_, file_roundtrip _ t hlines hnames hne hrows, h1, h2, h3, h5, h7⟩
+
+/-! ### numbers in the table body -/
+
+/-- **integer cells come back exactly**: the decimal text `str` writes for any integer - of any magnitude, no detour through
+floating point - is read back as that integer -/
+theorem parseInt_fmtInt (z : ℤ) : parseInt (fmtInt z) = some z := by
+  unfold fmtInt
+  by_cases hz : z < 0
+  · rw [if_pos hz]
+    unfold parseInt
+    simp only [natStr_ne_nil, ne_eq, not_false_eq_true, allDigits_natStr, and_self, if_true, natVal_natStr]
+    congr 1
+    omega
+  · rw [if_neg hz]
+    obtain ⟨c, s, hcs, hc⟩ := natStr_head_digit z.natAbs
+    rw [hcs, parseInt_of_digit_head c s hc, ← hcs]
+    simp only [natStr_ne_nil, ne_eq, not_false_eq_true, allDigits_natStr, and_self, if_true, natVal_natStr]
+    congr 1
+    omega
+
+/-- **what the reader gets from a `%0.{d}f` cell**: the decimal text is read back as exactly `± round(mag·10^d) / 10^d` -/
+theorem parseDec_fmtFixed (d : ℕ) (neg : Bool) (mag : ℚ) (h : 0 ≤ mag) :
+    parseDec (fmtFixed d neg mag)
+      = some ((if neg then -1 else 1) * (((roundHalfEven (mag * (10 : ℚ) ^ d) : ℤ) : ℚ) / (10 : ℚ) ^ d)) := by
+  have hnn : 0 ≤ roundHalfEven (mag * (10 : ℚ) ^ d) := roundHalfEven_nonneg _ (by positivity)
+  have hcast : (((roundHalfEven (mag * (10 : ℚ) ^ d)).toNat : ℕ) : ℚ) = ((roundHalfEven (mag * (10 : ℚ) ^ d) : ℤ) : ℚ) := by
+    have : (((roundHalfEven (mag * (10 : ℚ) ^ d)).toNat : ℕ) : ℤ) = roundHalfEven (mag * (10 : ℚ) ^ d) := Int.toNat_of_nonneg hnn
+    exact_mod_cast this
+  unfold fmtFixed
+  simp only
+  rw [List.append_assoc, parseDec_signedBody, hcast]
+
+/-- **numeric values equal to the precision of the float format**: for every finite double (sign bit `neg`, exact magnitude
+`mag`) and every number of decimals `d`, the text `%0.{d}f` writes is a decimal number that differs from the double by at
+most half a unit of the last printed decimal -/
+theorem fixed_precision (d : ℕ) (neg : Bool) (mag : ℚ) (h : 0 ≤ mag) :
+    ∃ y, parseDec (fmtFixed d neg mag) = some y ∧ |y - (if neg then -1 else 1) * mag| ≤ 1 / (2 * (10 : ℚ) ^ d) := by
+  refine ⟨_, parseDec_fmtFixed d neg mag h, ?_⟩
+  have hb := roundHalfEven_bound (mag * (10 : ℚ) ^ d)
+  have h10 : (0 : ℚ) < (10 : ℚ) ^ d := by positivity
+  set r : ℚ := ((roundHalfEven (mag * (10 : ℚ) ^ d) : ℤ) : ℚ) with hr
+  have key : |r / (10 : ℚ) ^ d - mag| ≤ 1 / (2 * (10 : ℚ) ^ d) := by
+    have e : r / (10 : ℚ) ^ d - mag = (r - mag * (10 : ℚ) ^ d) / (10 : ℚ) ^ d := by field_simp
+    rw [e, abs_div, abs_of_pos h10, div_le_div_iff₀ h10 (by positivity)]
+    calc |r - mag * (10 : ℚ) ^ d| * (2 * (10 : ℚ) ^ d) ≤ (1 / 2) * (2 * (10 : ℚ) ^ d) :=
+          mul_le_mul_of_nonneg_right hb (by positivity)
+      _ = 1 * (10 : ℚ) ^ d := by ring
+  cases neg with
+  | true =>
+    simp only [if_true]
+    have e : -1 * (r / (10 : ℚ) ^ d) - -1 * mag = -(r / (10 : ℚ) ^ d - mag) := by ring
+    rw [e, abs_neg]; exact key
+  | false =>
+    simp only [Bool.false_eq_true, if_false, one_mul]
+    exact key
+
+/-- what the reader gets from a `%0.{d}e` cell: mantissa and exponent are read back as `± n · 10^(e-d)` -/
+theorem parseSci_fmtExp (d : ℕ) (neg : Bool) (mag : ℚ) :
+    parseSci (fmtExp d neg mag)
+      = some ((if neg then -1 else 1) * (((expParts d mag).1 : ℚ) / (10 : ℚ) ^ d) * pow10 (expParts d mag).2) := by
+  unfold fmtExp
+  cases hparts : expParts d mag with
+  | mk n e =>
+  simp only
+  set mant := (if neg then ['-'] else []) ++ (natStr (n / 10 ^ d) ++ (if d = 0 then [] else '.' :: fracDigits d (n % 10 ^ d))) with hmant
+  set ex := (if e < 0 then '-' else '+') :: (if e.natAbs < 10 then '0' :: natStr e.natAbs else natStr e.natAbs) with hex
+  have hshape : (if neg then ['-'] else []) ++ natStr (n / 10 ^ d) ++ (if d = 0 then [] else '.' :: fracDigits d (n % 10 ^ d)) ++ 'e' :: ex
+      = mant ++ 'e' :: ex := by rw [hmant]; simp
+  rw [hshape]
+  unfold parseSci
+  have htw : (mant ++ 'e' :: ex).takeWhile (fun c => c != 'e' && c != 'E') = mant := by
+    apply takeWhile_append_stop _ _ _ _ _ (by decide)
+    intro c hc
+    rcases mantissa_chars d n neg c hc with h | h | h
+    · have h1 : c ≠ 'e' := digit_ne_char c 'e' h (by right; decide)
+      have h2 : c ≠ 'E' := digit_ne_char c 'E' h (by right; decide)
+      simp [h1, h2]
+    · subst h; decide
+    · subst h; decide
+  simp only [htw, List.drop_left']
+  rw [parseDec_signedBody, hex, parseInt_expPart]
+
+/-- **numeric values equal to the precision of the float format, exponent notation**: for every double of magnitude between
+`10^-800` and `10^800` (all finite non-zero doubles and far beyond) and every number of decimals `d`, the text `%0.{d}e`
+writes is a decimal number that differs from the double by at most half a unit of the `d`-th decimal of its mantissa:
+relative error at most `10^-d / 2` -/
+theorem exp_precision (d : ℕ) (neg : Bool) (mag : ℚ) (hlo : (10 : ℚ) ^ (-800 : ℤ) ≤ mag) (hhi : mag < (10 : ℚ) ^ (800 : ℤ)) :
+    ∃ y, parseSci (fmtExp d neg mag) = some y ∧ |y - (if neg then -1 else 1) * mag| ≤ mag / (2 * (10 : ℚ) ^ d) := by
+  refine ⟨_, parseSci_fmtExp d neg mag, ?_⟩
+  have hm : 0 < mag := lt_of_lt_of_le (zpow_pos (by norm_num) _) hlo
+  obtain ⟨hE1, hE2⟩ := findExp_800 mag hlo hhi
+  set E := findExp 800 mag 0 with hEdef
+  set p : ℚ := pow10 (E - d) with hp
+  have hppos : 0 < p := pow10_pos _
+  set n0 := roundHalfEven (mag / p) with hn0
+  have hn0nn : 0 ≤ n0 := roundHalfEven_nonneg _ (by positivity)
+  have hb := roundHalfEven_bound (mag / p)
+  have h10d : (0 : ℚ) < (10 : ℚ) ^ d := by positivity
+  -- the value printed is n0 · p in both branches of the carry
+  have hval : (((expParts d mag).1 : ℚ) / (10 : ℚ) ^ d) * pow10 (expParts d mag).2 = (n0 : ℚ) * p := by
+    have hpE : ∀ e : ℤ, pow10 e / (10 : ℚ) ^ d = pow10 (e - d) := by
+      intro e
+      rw [pow10_eq_zpow, pow10_eq_zpow, zpow_sub₀ (by norm_num : (10 : ℚ) ≠ 0), zpow_natCast]
+    have hcast : ((n0.toNat : ℕ) : ℚ) = (n0 : ℚ) := by
+      have : ((n0.toNat : ℕ) : ℤ) = n0 := Int.toNat_of_nonneg hn0nn
+      exact_mod_cast this
+    unfold expParts
+    rw [if_neg (not_le.mpr hm)]
+    simp only
+    rw [← hEdef, ← hp, ← hn0]
+    by_cases hc : n0.toNat = 10 ^ (d + 1)
+    · rw [if_pos hc]
+      simp only
+      have hn : (n0 : ℚ) = (10 : ℚ) ^ (d + 1) := by rw [← hcast, hc]; push_cast; rfl
+      rw [hn, hp, ← hpE E, pow10_eq_zpow, pow10_eq_zpow, zpow_add₀ (by norm_num : (10 : ℚ) ≠ 0), zpow_one]
+      push_cast
+      field_simp
+      ring
+    · rw [if_neg hc]
+      simp only
+      rw [hcast, hp, ← hpE E]
+      field_simp
+  have hpE : p = (10 : ℚ) ^ E / (10 : ℚ) ^ d := by
+    rw [hp, pow10_eq_zpow, zpow_sub₀ (by norm_num : (10 : ℚ) ≠ 0), zpow_natCast]
+  have key : |(n0 : ℚ) * p - mag| ≤ mag / (2 * (10 : ℚ) ^ d) := by
+    have e : (n0 : ℚ) * p - mag = ((n0 : ℚ) - mag / p) * p := by field_simp
+    rw [e, abs_mul, abs_of_pos hppos]
+    calc |(n0 : ℚ) - mag / p| * p ≤ (1 / 2) * p := mul_le_mul_of_nonneg_right hb hppos.le
+      _ = (10 : ℚ) ^ E / (2 * (10 : ℚ) ^ d) := by rw [hpE]; field_simp
+      _ ≤ mag / (2 * (10 : ℚ) ^ d) := by
+          apply div_le_div_of_nonneg_right hE1 (by positivity)
+  cases neg with
+  | true =>
+    simp only [if_true]
+    have e : -1 * (((expParts d mag).1 : ℚ) / (10 : ℚ) ^ d) * pow10 (expParts d mag).2 - -1 * mag
+        = -((((expParts d mag).1 : ℚ) / (10 : ℚ) ^ d) * pow10 (expParts d mag).2 - mag) := by ring
+    rw [e, abs_neg, hval]; exact key
+  | false =>
+    simp only [Bool.false_eq_true, if_false, one_mul]
+    rw [hval]; exact key
+
+/-- zero of either sign in exponent notation is read back as zero -/
+theorem exp_zero (d : ℕ) (neg : Bool) : parseSci (fmtExp d neg 0) = some 0 := by
+  rw [parseSci_fmtExp]
+  simp [expParts]
+
+/-- the double read back: with a reader that rounds monotonically to representable numbers (any rounding mode), a text value
+`y` enclosed by two representable numbers is read as a number between them. With `fixed_precision`: the double read back
+lies between the representable neighbours of `x - ½·10^-d` and `x + ½·10^-d`; the sign is never lost -/
+theorem read_back_enclosed (rnd : ℚ → ℚ) (hmono : ∀ a b, a ≤ b → rnd a ≤ rnd b) (lo hi y : ℚ)
+    (hlo : rnd lo = lo) (hhi : rnd hi = hi) (h1 : lo ≤ y) (h2 : y ≤ hi) : lo ≤ rnd y ∧ rnd y ≤ hi :=
+  ⟨hlo ▸ hmono lo y h1, hhi ▸ hmono y hi h2⟩
+
+/-- a `%0.{d}f` cell is one bare field: digits, a point and a sign only - nothing the record writer quotes, no line feed -/
+theorem fmtFixed_plain (d : ℕ) (neg : Bool) (mag : ℚ) :
+    ∀ c ∈ fmtFixed d neg mag, isDigitChar c ∨ c = '-' ∨ c = '.' := by
+  intro c hc
+  unfold fmtFixed at hc
+  simp only [List.mem_append] at hc
+  rcases hc with (hc | hc) | hc
+  · split at hc
+    · simp at hc; right; left; exact hc
+    · simp at hc
+  · left; exact natStr_digits _ c hc
+  · split at hc
+    · simp at hc
+    · simp only [List.mem_cons] at hc
+      rcases hc with hc | hc
+      · right; right; exact hc
+      · left; exact fracDigits_digits _ _ c hc
 
 /-! ### file names: the reader opens what the writer created -/
 
@@ -332,19 +936,365 @@ theorem plain_roundtrip (name : Str) (h1 : suffix name ≠ extGz) (h2 : suffix n
     simp only
     rw [if_neg h1, if_neg h2]
 
+/-! ### histories: any sequence of writes and reads in one directory, and in one caller-supplied archive -/
+
+/-- the zip file `write_csv(compress=True)` creates: under a `.zip` name, with the stem of the name given -/
+theorem writeTarget_zip (name : Str) (hn : name ≠ []) :
+    ∃ full, writeTarget name true = (full, some (stem name ++ extCsv)) ∧ suffix full = extZip ∧ stem full = stem name := by
+  by_cases hz : suffix name = extZip
+  · exact ⟨name, by unfold writeTarget; rw [if_pos rfl, if_pos hz], hz, rfl⟩
+  · refine ⟨stem name ++ extZip, by unfold writeTarget; rw [if_pos rfl, if_neg hz], suffix_stem_zip name hn, ?_⟩
+    exact (stem_append_ext (stem name) "zip".toList (stem_ne_nil name hn) (by decide) (by decide)).1
+
+/-- every write - accepted or refused (missing source file) - keeps the invariant -/
+theorem writeStep_inv (d : Dir) (name : Str) (compress src : Bool) (text : Str) (hn : name ≠ []) (h : ZipInv d) :
+    ZipInv (writeStep d name compress src text) := by
+  unfold writeStep
+  cases src with
+  | false => simpa using h
+  | true =>
+    simp only [Bool.not_true, Bool.false_eq_true, if_false]
+    cases compress with
+    | true =>
+      obtain ⟨full, hw, hsuf, hstem⟩ := writeTarget_zip name hn
+      rw [hw]
+      intro f ms hf
+      rw [dirGet_dirSet] at hf
+      by_cases hff : f = full
+      · rw [if_pos hff] at hf
+        injection hf with hf; injection hf with hf
+        subst hff
+        exact ⟨hsuf, text, by rw [← hf, hstem]⟩
+      · rw [if_neg hff] at hf
+        exact h f ms hf
+    | false =>
+      have hw : writeTarget name false = (name, none) := rfl
+      rw [hw]
+      intro f ms hf
+      rw [dirGet_dirSet] at hf
+      by_cases hff : f = name
+      · rw [if_pos hff] at hf; injection hf with hf; cases hf
+      · rw [if_neg hff] at hf; exact h f ms hf
+
+/-- **the invariant holds along every history** (any list of writes - accepted or refused - and reads) -/
+theorem run_inv (ops : List Op) : ∀ d, (∀ op ∈ ops, op.nameOk) → ZipInv d → ZipInv (run d ops).1 := by
+  induction ops with
+  | nil => intro d _ h; exact h
+  | cons op ops ih =>
+    intro d hok h
+    have hrest : ∀ o ∈ ops, o.nameOk := fun o ho => hok o (by simp [ho])
+    unfold run
+    cases op with
+    | write name compress src text =>
+      simp only [step]
+      exact ih _ hrest (writeStep_inv d name compress src text (hok (.write name compress src text) (by simp)) h)
+    | read name =>
+      simp only [step]
+      exact ih _ hrest h
+
+/-- what `read_csv` resolves to when it opens a zip file: the member `<stem>.csv` of a file with the same stem -/
+theorem readTarget_zip (ex : Str → Bool) (name f m : Str) (hn : name ≠ [])
+    (h : readTarget ex name = some (.zipMember f m)) :
+    m = stem name ++ extCsv ∧ suffix f = extZip ∧ stem f = stem name ∧ ex f = true := by
+  unfold readTarget at h
+  cases hc : checkName ex name with
+  | none => rw [hc] at h; cases h
+  | some full =>
+    rw [hc] at h
+    simp only at h
+    split at h
+    · cases h
+    · split at h
+      · rename_i hgz hzip
+        injection h with h; injection h with h1 h2
+        subst h1
+        refine ⟨h2.symm, hzip, ?_, ?_⟩
+        · unfold checkName at hc
+          split at hc
+          · injection hc with hc; rw [← hc]
+          · rw [checkName_cands] at hc
+            have hmem := List.mem_of_find?_eq_some hc
+            simp only [List.mem_cons, List.not_mem_nil, or_false] at hmem
+            have hs := stem_ne_nil name hn
+            have s1 : suffix (stem name ++ extGz) = extGz :=
+              (stem_append_ext (stem name) "gz".toList hs (by decide) (by decide)).2
+            have s2 : stem (stem name ++ extZip) = stem name :=
+              (stem_append_ext (stem name) "zip".toList hs (by decide) (by decide)).1
+            have s3 : suffix (stem name ++ extCsv) = extCsv :=
+              (stem_append_ext (stem name) "csv".toList hs (by decide) (by decide)).2
+            have s4 : suffix (stem name ++ (extCsv ++ extGz)) = extGz := by
+              have := (stem_append_ext (stem name ++ extCsv) "gz".toList (by simp [extCsv]) (by decide) (by decide)).2
+              rw [List.append_assoc] at this
+              exact this
+            rcases hmem with e | e | e | e
+            · rw [e, s1] at hzip; exact absurd hzip (by decide)
+            · rw [e]; exact s2
+            · rw [e, s3] at hzip; exact absurd hzip (by decide)
+            · rw [e, s4] at hzip; exact absurd hzip (by decide)
+        · unfold checkName at hc
+          split at hc
+          · rename_i hex; injection hc with hc; rw [← hc]; exact hex
+          · exact (List.find?_some hc)
+      · cases h
+
+/-- **no read of any history fails for a missing member**: in a directory where the invariant holds - every directory
+reached from an empty one - `read_csv` never opens a zip file without finding `<stem>.csv` in it, whatever name is
+asked for and whatever was written before under whatever names and storage modes -/
+theorem readStep_member_found (d : Dir) (name : Str) (hn : name ≠ []) (h : ZipInv d) : readStep d name ≠ .noMember := by
+  unfold readStep
+  cases hr : readTarget (dirHas d) name with
+  | none => simp
+  | some o =>
+    cases o with
+    | gz f => simp
+    | plain f => simp only; cases dirGet d f with
+      | none => simp
+      | some c => cases c <;> simp
+    | zipMember f m =>
+      obtain ⟨hm, _, hstem, _⟩ := readTarget_zip _ name f m hn hr
+      simp only
+      cases hg : dirGet d f with
+      | none => simp
+      | some c =>
+        cases c with
+        | plain t => simp
+        | zip ms =>
+          obtain ⟨_, t, hms⟩ := h f ms hg
+          simp only
+          rw [hms, hm, hstem]
+          simp [memberGet]
+
+/-- the same over operation lists: from the empty directory, after ANY history, a read does not fail for a missing member -/
+theorem history_member_found (ops : List Op) (name : Str) (hok : ∀ op ∈ ops, op.nameOk) (hn : name ≠ []) :
+    readStep (run [] ops).1 name ≠ .noMember :=
+  readStep_member_found _ name hn (run_inv ops [] hok (by intro f ms hf; simp [dirGet] at hf))
+
+/-- **plain file, any directory**: whatever the directory holds already (any history), a frame written without compression
+under a name whose extension is neither `.gz` nor `.zip` is what the next `read_csv` of that name returns -/
+theorem write_read_plain (d : Dir) (name text : Str) (h1 : suffix name ≠ extGz) (h2 : suffix name ≠ extZip) :
+    readStep (writeStep d name false true text) name = .text text := by
+  unfold writeStep
+  simp only [Bool.not_true, Bool.false_eq_true, if_false]
+  have hw : writeTarget name false = (name, none) := rfl
+  rw [hw]
+  simp only
+  unfold readStep readTarget checkName
+  have hex : dirHas (dirSet d name (Stored.plain text)) name = true := by rw [dirHas_dirSet]; simp
+  rw [if_pos hex]
+  simp only
+  rw [if_neg h1, if_neg h2]
+  simp only
+  rw [dirGet_dirSet, if_pos rfl]
+
+/-- **compressed file, any directory**: whatever the directory holds already, provided it holds no file that `read_csv`
+prefers to the zip file - no file called `name` itself (unless `name` is the zip file) and no `<stem>.gz` - the frame
+written with `compress=True` is what the next `read_csv` of that name returns; an older zip file of that name is
+replaced -/
+theorem write_read_compress (d : Dir) (name text : Str) (hn : name ≠ [])
+    (hstale : suffix name = extZip ∨ dirHas d name = false) (hgz : dirHas d (stem name ++ extGz) = false) :
+    readStep (writeStep d name true true text) name = .text text := by
+  obtain ⟨full, hw, hsuf, hstem⟩ := writeTarget_zip name hn
+  have hfull : full = if suffix name = extZip then name else stem name ++ extZip := by
+    have : writeTarget name true = ((if suffix name = extZip then name else stem name ++ extZip), some (stem name ++ extCsv)) := by
+      unfold writeTarget; rw [if_pos rfl]
+    rw [this] at hw
+    injection hw with hw _
+    exact hw.symm
+  unfold writeStep
+  simp only [Bool.not_true, Bool.false_eq_true, if_false]
+  rw [hw]
+  simp only
+  set d' := dirSet d full (Stored.zip [(stem name ++ extCsv, text)]) with hd'
+  have hgznezip : extGz ≠ extZip := by decide
+  have htarget : readTarget (dirHas d') name = some (.zipMember full (stem name ++ extCsv)) := by
+    unfold readTarget checkName
+    by_cases hz : suffix name = extZip
+    · rw [if_pos hz] at hfull
+      have hex : dirHas d' name = true := by rw [hd', dirHas_dirSet, hfull]; simp
+      rw [if_pos hex]
+      simp only
+      rw [hz, if_neg (Ne.symm hgznezip), if_pos rfl, hfull]
+    · rw [if_neg hz] at hfull
+      have hne : name ≠ full := by
+        intro heq; apply hz; rw [heq]; exact hsuf
+      have hnoname : dirHas d' name = false := by
+        rw [hd', dirHas_dirSet]
+        rcases hstale with h | h
+        · exact absurd h hz
+        · simp [h, hne]
+      have hnogz : dirHas d' (stem name ++ extGz) = false := by
+        rw [hd', dirHas_dirSet, hgz, hfull]
+        have : stem name ++ extGz ≠ stem name ++ extZip := fun heq => hgznezip (List.append_cancel_left heq)
+        simp [this]
+      have hzipthere : dirHas d' (stem name ++ extZip) = true := by rw [hd', dirHas_dirSet, hfull]; simp
+      rw [if_neg (by simp [hnoname]), checkName_cands]
+      simp only [List.find?_cons, hnogz, hzipthere]
+      rw [suffix_stem_zip name hn, if_neg (Ne.symm hgznezip), if_pos rfl, hfull]
+  unfold readStep
+  rw [htarget]
+  simp only
+  rw [hd', dirGet_dirSet, if_pos rfl]
+  simp [memberGet]
+
+/-- the hypothesis of `write_read_compress` is needed: with an older plain file `d.csv` in the directory,
+`write_csv(…, "d.csv", compress=True)` creates `d.zip` and `read_csv("d.csv")` still returns the OLD plain file -/
+theorem stale_plain_shadows_zip :
+    ∃ d name old new, old ≠ new ∧ ZipInv d ∧ readStep (writeStep d name true true new) name = .text old :=
+  ⟨[("d.csv".toList, .plain "old".toList)], "d.csv".toList, "old".toList, "new".toList, by decide,
+    by intro f ms hf; simp only [dirGet] at hf; split at hf <;> simp at hf, by decide⟩
+
+/-! #### a caller-supplied archive -/
+
+/-- **archive histories**: after ANY list of member writes - accepted or refused because the member exists - and reads,
+every member reads as the text of the FIRST write of that name in the history (or as what the archive held before);
+refused writes and reads change nothing -/
+theorem archive_history (ops : List AOp) : ∀ (a : Archive) (m : Str),
+    arcRead (arun a ops).1 m = match arcRead a m with | some t => some t | none => firstWrite ops m := by
+  induction ops with
+  | nil => intro a m; simp only [arun, firstWrite]; cases arcRead a m <;> rfl
+  | cons op ops ih =>
+    intro a m
+    simp only [arun]
+    rw [ih]
+    cases op with
+    | read n => simp only [astep, firstWrite]
+    | write n t =>
+      simp only [astep, arcWrite, firstWrite]
+      by_cases hany : a.any (·.1 == n) = true
+      · rw [if_pos hany]
+        simp only
+        by_cases hnm : (n == m) = true
+        · have : n = m := by simpa using hnm
+          subst this
+          obtain ⟨x, hx⟩ := memberGet_some_of_any a n hany
+          simp [arcRead, hx]
+        · simp only [hnm, if_false]
+          rfl
+      · have hany' : a.any (·.1 == n) = false := eq_false_of_ne_true hany
+        rw [if_neg hany]
+        simp only [arcRead]
+        rw [memberGet_append_new a m n t hany']
+        cases hget : memberGet a m with
+        | some x => rfl
+        | none =>
+          simp only
+          by_cases hnm : (n == m) = true
+          · simp [hnm]
+          · simp only [hnm, if_false]
+            cases firstWrite ops m <;> rfl
+
+/-- a member written into an archive (whatever else is written before or after, under other names) is read back -/
+theorem archive_write_read (before after : List AOp) (m t : Str)
+    (hb : firstWrite before m = none) : arcRead (arun [] (before ++ .write m t :: after)).1 m = some t := by
+  rw [archive_history]
+  simp only [arcRead, memberGet]
+  have : ∀ l : List AOp, firstWrite l m = none → firstWrite (l ++ .write m t :: after) m = some t := by
+    intro l
+    induction l with
+    | nil => intro _; simp [firstWrite]
+    | cons op l ih =>
+      intro h
+      cases op with
+      | read n => simp only [List.cons_append, firstWrite] at h ⊢; exact ih h
+      | write n x =>
+        simp only [List.cons_append, firstWrite] at h ⊢
+        by_cases hn : (n == m) = true
+        · simp [hn] at h
+        · simp only [hn, if_false] at h ⊢; exact ih h
+  exact this before hb
+
+/-! ### hypotheses that the property text does not state: each is needed (counterexamples on the model, the real code is
+probed at the same points by the correspondence stream `hdr/…/wild` and the directory histories) -/
+
+/-- a caller's key that the header uses itself competes with the recorded count: the count is NOT returned -/
+theorem reserved_key_needed :
+    ∃ comments : List (Str × Str), (∀ kv ∈ comments, KeyOk kv.1 ∧ ValOk kv.2) ∧ (comments.map (·.1)).Nodup ∧
+      (readHeader ((csvheadFull 3 2 (.dict comments) []).map (· ++ ['\n']))).lookup "nrow".toList ≠ some (natStr 3) := by
+  refine ⟨[("nrow".toList, "7".toList)], ?_, by decide, by decide⟩
+  intro kv hkv
+  simp only [List.mem_cons, List.not_mem_nil, or_false] at hkv
+  subst hkv
+  exact ⟨keyOk_nrow, ⟨by decide, by decide, by decide⟩⟩
+
+/-- a key with a blank inside comes back under another key (the reader writes an underscore for runs of blanks) -/
+theorem key_blank_rewritten :
+    ∃ k v : Str, lower k = k ∧ k.length ≤ 25 ∧ (∀ c ∈ k, (c != ':') = true) ∧ ValOk v ∧
+      (readHeader ((csvheadFull 3 2 (.dict [(k, v)]) []).map (· ++ ['\n']))).lookup k = none ∧
+      (readHeader ((csvheadFull 3 2 (.dict [(k, v)]) []).map (· ++ ['\n']))).lookup (subSpaces k) = some v :=
+  ⟨"my key".toList, "x".toList, by decide, by decide, by decide, ⟨by decide, by decide, by decide⟩, by decide, by decide⟩
+
+/-- a key of more than `KEY_LENGTH_MAX - 2` characters is not recognised as a key at all: the whole line comes back as
+`comment_01` (the property's bound of 25 characters is inside the window of 30) -/
+theorem long_key_lost :
+    ∃ k v : Str, k.length = 30 ∧ ValOk v ∧
+      (readHeader ((csvheadFull 3 2 (.dict [(k, v)]) []).map (· ++ ['\n']))).lookup k = none :=
+  ⟨List.replicate 30 'k', "x".toList, by decide, ⟨by decide, by decide, by decide⟩, by decide⟩
+
+/-- a colon in a key is removed by the writer: the comment comes back under the key without it -/
+theorem key_colon_removed :
+    ∃ k v : Str, lower k = k ∧ k.length ≤ 25 ∧ (∀ c ∈ k, isSpace c = false) ∧ ValOk v ∧
+      (readHeader ((csvheadFull 3 2 (.dict [(k, v)]) []).map (· ++ ['\n']))).lookup k = none ∧
+      (readHeader ((csvheadFull 3 2 (.dict [(k, v)]) []).map (· ++ ['\n']))).lookup (writerKey k) = some v :=
+  ⟨"a:b".toList, "x".toList, by decide, by decide, by decide, ⟨by decide, by decide, by decide⟩, by decide, by decide⟩
+
+/-- the other half of the hypothesis of `write_read_compress`: an older `<stem>.gz` is preferred to the zip file just written -/
+theorem stale_gz_shadows_zip :
+    ∃ d name new, ZipInv d ∧ readStep (writeStep d name true true new) name ≠ .text new :=
+  ⟨[("d.gz".toList, .plain "old".toList)], "d.csv".toList, "new".toList,
+    by intro f ms hf; simp only [dirGet] at hf; split at hf <;> simp at hf, by decide⟩
+
+/-- the hypotheses of `write_read_plain` are needed: a plain file written under a `.zip` name is opened as an archive -/
+theorem plain_under_zip_name_unreadable :
+    ∃ name text, readStep (writeStep [] name false true text) name = .wrongKind :=
+  ⟨"d.zip".toList, "x".toList, by decide⟩
+
 /-! ### non-vacuity and sample evaluations -/
 
 example : KeyOk "station_id".toList := ⟨by decide, by decide, by decide, by decide, by decide⟩
-example : ValOk "flow: 3.5 m3/s, #1 \"gauge\"".toList := ⟨by decide, by decide, by decide⟩
+example : ValOk "flow: 3.5 m3/s, #1 \"gauge\" ---------- x".toList := ⟨by decide, by decide, by decide⟩
 example : readHeader (csvhead 3 2 [("site".toList, "a: b, #c".toList)] ["# author : me".toList]) =
     [("nrow".toList, "3".toList), ("ncol".toList, "2".toList), ("site".toList, "a: b, #c".toList),
      ("author".toList, "me".toList)] := by decide
+-- the whole header with system pairs, a value holding a dashed line, an untrimmed and a blank value
+example : readHeader ((csvheadFull 12 2 (.dict [("site".toList, "----------".toList), ("b".toList, " x ".toList), ("c".toList, " ".toList)])
+      (systemPairs "2026-01-01 00:00:00".toList "me".toList "/a/s.py".toList "s.py".toList none)).map (· ++ ['\n'])) =
+    [("nrow".toList, "12".toList), ("ncol".toList, "2".toList), ("b".toList, "x".toList), ("site".toList, "----------".toList),
+     ("time_generated".toList, "2026-01-01 00:00:00".toList), ("author".toList, "me".toList), ("source_file".toList, "s.py".toList)] := by decide
+example : (∀ kv ∈ [("site".toList, "x".toList), ("b".toList, "y".toList)], kv.1 ∉ reservedKeys) ∧
+    ([("site".toList, "x".toList), ("b".toList, "y".toList)].map (·.1)).Nodup := by decide
+example : commentsOf (.list ["one".toList, "two".toList]) = [("comment00".toList, "one".toList), ("comment01".toList, "two".toList)] := by decide
+example : commentsOf (.dict [("A:b".toList, "1".toList), ("ab".toList, "2".toList)]) = [("ab".toList, "2".toList)] := by decide
+example : natStr 120 = "120".toList ∧ natVal "0042".toList = 42 ∧ idx2 7 = "07".toList := by decide
 example : stem "a.b.csv".toList = "a.b".toList ∧ suffix "a.b.csv".toList = ".csv".toList
     ∧ stem ".hidden".toList = ".hidden".toList ∧ suffix "x.".toList = [] := by decide
 example : writeTarget "data".toList true = ("data.zip".toList, some "data.csv".toList) := by decide
 example : writeRow ["a,b".toList, "say \"hi\"".toList, "#1: x".toList] = "\"a,b\",\"say \"\"hi\"\"\",#1: x".toList := by decide
 example : parseRow "\"a,b\",\"say \"\"hi\"\"\",#1: x,,3.5".toList = ["a,b".toList, "say \"hi\"".toList, "#1: x".toList, [], "3.5".toList] := by decide
-example : splitCols "flow rate,site-id,q_1\n".toList = ["flow rate".toList, "site-id".toList, "q_1".toList] := by decide
+example : splitCols " flow rate,site-id,q_1 \r\n".toList = [" flow rate".toList, "site-id".toList, "q_1 ".toList] := by decide
 example : (∀ n ∈ ["flow rate".toList, "q_1".toList], ColOk n) := by unfold ColOk; decide
+example : NameOk " flow rate ".toList := ⟨by decide, by decide⟩
+-- a whole file: header lines, names, a record starting with `#`, quoted fields
+example : readFile (writeFile ["# ----------".toList, "# k : v".toList] ⟨["a b".toList, "c".toList], [["#1, x".toList, "2.50".toList], ["say \"hi\"".toList, "-1".toList]]⟩)
+    = some ⟨[("k".toList, "v".toList)], ⟨["a b".toList, "c".toList], [["#1, x".toList, "2.50".toList], ["say \"hi\"".toList, "-1".toList]]⟩⟩ := by decide
+-- numbers
+example : parseInt (fmtInt (-9007199254740993)) = some (-9007199254740993) := parseInt_fmtInt _
+example : ∃ y, parseDec (fmtFixed 5 true (1 / 10)) = some y ∧ |y - (-1) * (1 / 10)| ≤ 1 / (2 * (10 : ℚ) ^ 5) := by
+  simpa using fixed_precision 5 true (1 / 10) (by norm_num)
+example : (10 : ℚ) ^ (-800 : ℤ) ≤ 1 / 10 ∧ (1 / 10 : ℚ) < (10 : ℚ) ^ (800 : ℤ) := by
+  constructor
+  · rw [show (1 / 10 : ℚ) = (10 : ℚ) ^ (-1 : ℤ) by norm_num]
+    exact (zpow_le_zpow_iff_right₀ (by norm_num)).mpr (by norm_num)
+  · calc (1 / 10 : ℚ) < (10 : ℚ) ^ (0 : ℤ) := by norm_num
+      _ ≤ (10 : ℚ) ^ (800 : ℤ) := (zpow_le_zpow_iff_right₀ (by norm_num)).mpr (by norm_num)
+example : natVal (fracDigits 3 1042) = 42 ∧ fracDigits 3 7 = "007".toList := by decide
+-- histories: a directory and an archive
+example : (run [] [.write "d.csv".toList true true "A".toList, .read "d.csv".toList, .write "d.csv".toList false true "B".toList,
+      .read "d.csv".toList, .write "d.csv".toList true true "C".toList, .read "d.csv".toList, .write "e".toList true false "D".toList,
+      .read "e".toList]).2 = [.text "A".toList, .text "B".toList, .text "B".toList, .notFound] := by decide
+example : ∀ op ∈ [Op.write "d.csv".toList true true "A".toList, Op.read "d".toList], op.nameOk := by
+  intro op h; simp only [List.mem_cons, List.not_mem_nil, or_false] at h; rcases h with h | h <;> subst h <;> simp [Op.nameOk]
+example : (arun [] [.write "x/a.csv".toList "A".toList, .write "x/a.csv".toList "B".toList, .read "a.csv".toList, .read "x/a.csv".toList]).2
+    = [some "A".toList, none, none, some "A".toList] := by decide
+example : firstWrite [.read "m".toList, .write "n".toList "1".toList] "m".toList = none := by decide
 
 end HydroVerif.C09
